@@ -33,6 +33,7 @@ ASSUMPTIONS = ['E1', 'E2', 'injected handler exceptions are RuntimeError; '
 SHRINK_LISTS = ['lives']
 
 NSS = ['/', '/a', '/b']
+ROOMS = ['room0', 'room1', 'room2', 0, '', 'room1', 0.0, 'room0']
 ENDS = ['cdisc_close', 'sever', 'sdisc_sever', 'eio_close', 'sever_halfopen',
         'close', 'sever', 'ping_timeout', 'sdisc_ping_expired',
         'emit_ping_expired', 'sdisc_race_sever']
@@ -297,10 +298,10 @@ def _run(case, cfg, w, kw):
             if not sc.alive(p):
                 break
             if step == 'room' and sid:
-                w.api('s', 'enter_room', sid, 'room%d' % (r % 3),
+                w.api('s', 'enter_room', sid, ROOMS[r % len(ROOMS)],
                       namespace=ns)
             elif step == 'leave' and sid:
-                w.api('s', 'leave_room', sid, 'room%d' % (r % 3),
+                w.api('s', 'leave_room', sid, ROOMS[r % len(ROOMS)],
                       namespace=ns)
             elif step == 'leave_all' and sid:
                 # the application's tidy-up "leave every room rooms() lists"
